@@ -8,7 +8,7 @@ CLAIMED = {
                 text='seeded search over interleavings (file-system-call granularity) of 2-5 contender processes running '
                      'the real FileLock/SemLock/LockFile code on a simulated kernel (SimFS flock semantics, simulated clock, '
                      'process kills); online mutual-exclusion monitor, justified-timeout oracle, relock-after-quiescence '
-                     '(incl. giving up on stale information after the lock became free) and deadlock detection; one unlink of the lock file may fail (EPERM/EIO/EACCES), one flock() may fail (ENOLCK/EINTR/EIO); in the tile-locker mode the locks come from TileLocker.lock() while another task keeps running cleanup_lockdir(). Sampling of schedules, not proof.',
+                     '(incl. giving up on stale information after the lock became free) and deadlock detection; one unlink of the lock file may fail (EPERM/EIO/EACCES), one flock() may fail (ENOLCK/EINTR/EIO); in the tile-locker mode the locks come from TileLocker.lock() while another task keeps running cleanup_lockdir(); semaphores may live in such a cleaned directory, with slots held for 100 s and late-coming contenders. Sampling of schedules, not proof.',
                 note='trusted: SimFS model of open/flock/unlink/close semantics (differentially tested against tmpfs), '
                      'pre-emption only at seam calls, CPython refcounting for descriptor lifetime',
                 technique='deterministic simulation: baton-passing scheduler over real threads + in-memory POSIX fs with flock, seeded schedule search, process-kill injection'),
@@ -46,7 +46,7 @@ CLAIMED = {
                      'scheduled at file-system-call granularity (incl. 3-4 writers contending for one bundle with lock-retry timers '
                      'firing while the holder runs), checked at quiescence. Sequential histories also meet I/O errors (one-shot or sticky) inside '
                      'a store/remove - the bundle must stay structurally valid - and dry-run defragmentations that must not change a byte. A defragmentation may meet one failing open() (it may abort, it must not lose a tile). About one case in 100 '
-                     'extends a bundle beyond 4 GiB as a sparse file on tmpfs and validates it through mmap. In the threads mode a thread may also be switched between two statements of compact.py (line events). Cache directory names vary (also names containing the bundle extension).',
+                     'extends a bundle beyond 4 GiB as a sparse file on tmpfs and validates it through mmap. The wall clock may step forward while concurrent writers work. In the threads mode a thread may also be switched between two statements of compact.py (line events). Cache directory names vary (also names containing the bundle extension).',
                 note='trusted: the independent parser (checks/bundleparse.py), SimFS; histories and schedules are sampled',
                 technique='deterministic simulation: model-based history checking with an independent bundle parser; seeded schedule search for concurrent bundle writers'),
     'C15': dict(level='exploration', ref='DESIGN.md 6.8',
@@ -82,7 +82,7 @@ CLAIMED = {
                      'file cache (also with symlinked single-colour tiles) on SimFS or per-level sqlite cache, plus two or three concurrent requests under a refresh rule (the upstream may answer in no time, so that a request is overtaken between its freshness check and its lock); oracle from the timestamps actually recorded: stale tile => '
                      'upstream asked, tile rewritten with the new fetch generation; fresh tile => no upstream call, same '
                      'generation; a failed refresh never removes or changes the stored tile; a tile written during a request is recorded with '
-                     'the time of that write even when the source reports older data; single stored tiles may be aged (mixed-age meta tiles) or disappear; bulk_meta_tiles deployments fetch tile by tile; a disk error may hit the store of a refreshed tile (the old tile must survive); an optional transparent overlay source may fail softly (the uncacheable result must not be stored); the seeding tile manager carries the cache\'s own refresh_before; absolute thresholds also arrive as datetime objects; the tile manager may be built by the real loader (two grids); same-second band unspecified. Cases run in seeded '
+                     'the time of that write even when the source reports older data; single stored tiles may be aged (mixed-age meta tiles) or disappear; bulk_meta_tiles deployments fetch tile by tile; a disk error may hit the store of a refreshed tile (the old tile must survive); an optional transparent overlay source may fail softly (the uncacheable result must not be stored); the seeding tile manager carries the cache\'s own refresh_before; seed workers may be forked copies of the tile manager; absolute thresholds also arrive as datetime objects; the tile manager may be built by the real loader (two grids); same-second band unspecified. Cases run in seeded '
                      'fixed-offset local time zones or one with daylight-saving time in force.',
                 note='trusted: simulated clock behind time.time/time.sleep/datetime.now of util/times.py, stub upstream, SimFS mtimes; '
                      'sqlite backend outside the simulator',
@@ -102,7 +102,7 @@ CLAIMED = {
     'C12': dict(level='exploration', ref='DESIGN.md 6.6',
                 text='seeded cache contents (tiles stored at seeded simulated times, some in the same second; foreign objects: a '
                      'second cache, lock files, stray files) x one cleanup task (level list / range / open and zero-ended ranges / all; remove_all, remove_before as '
-                     'absolute time / relative age / file mtime, default; full extent, bbox (grid SRS or EPSG:4326), polygon or multi-part coverage; seeded fixed-offset local time zone and file time-stamp granularity; a deep variant places tiles around the bundle borders of levels 8/9 of a twelve-level pyramid; an earlier cleanup task of the same run may precede the task under test; directories may be older than their tiles; removals may take seconds; a temporary file may vanish while the cleanup walks its directory; tiles may be stored again before the cleanup; the cache may have a coverage of its own; the clock of the cleanup may be behind the newest tiles; factor-2, sqrt2 and custom-resolution grids) built by the real '
+                     'absolute time / relative age / file mtime, default; full extent, bbox (grid SRS or EPSG:4326), polygon or multi-part coverage; seeded fixed-offset local time zone and file time-stamp granularity; a deep variant places tiles around the bundle borders of levels 8/9 of a twelve-level pyramid; an earlier cleanup task of the same run may precede the task under test; directories may be older than their tiles; removals may take seconds; a temporary file may vanish while the cleanup walks its directory; tiles may be stored again before the cleanup; the cache may have a coverage of its own; SQLite caches may run in WAL mode with connections kept open by another process (database files carry simulated time stamps); the clock of the cleanup may be behind the newest tiles; factor-2, sqrt2 and custom-resolution grids) built by the real '
                      'CleanupConfiguration and executed by the real cleanup() - all three strategies, with the real '
                      'TileCleanupWorker threads under the scheduler - on file (6 layouts, linked single-colour tiles, cache-level refresh_before), compact v1/v2 (SimFS), sqlite, mbtiles, '
                      'geopackage (tmpfs); oracle from recorded timestamps and independent geometry: must-remove / must-keep / '
@@ -111,7 +111,7 @@ CLAIMED = {
                 technique='deterministic simulation: simulated clock + file system (readdir order permuted), real cleanup workers under the baton scheduler, model-based checking'),
     'C11': dict(level='exploration', ref='DESIGN.md 6.5',
                 text='seeded seed tasks (factor-2 / sqrt2 / custom-resolution grids, non-square extents, ll/ul origin, level '
-                     'subsets given as lists, ranges (open, zero-ended, beyond the grid) or resolutions, bbox / concave / multi-part / single-tile coverages and two coverages per seed entry in the grid SRS or EPSG:4326, another seeding process holding the cache lock of one of two caches for a while, grids with near-coincident tile borders, one or two caches per seed entry, meta sizes, skip_geoms_for_last_levels, progress cadence, '
+                     'subsets given as lists, ranges (open, zero-ended, beyond the grid) or resolutions, bbox / concave / multi-part / single-tile coverages and two coverages per seed entry in the grid SRS or EPSG:4326 (also a polygon plus a box in its notch), another seeding process holding the cache lock of one of two caches for a while, grids with near-coincident tile borders, one or two caches per seed entry, meta sizes, skip_geoms_for_last_levels, progress cadence, '
                      'cache meta_buffer 0-200, per-hand-off simulated work time) run through the real seed()/TileWalker/SeedProgress/ProgressLog/ProgressStore '
                      'with a recording pool at the hand-off; uninterrupted run compared with a brute-force shapely oracle over whole '
                      'levels (complete up to one pixel of the finest selected level, minimal up to a one-pixel band); then the same task with 1-3 seeded interruptions '
